@@ -527,7 +527,7 @@ func init() {
 				case c.WantSample() && idx%3001 == 0:
 					c.Sample(cs)
 				}
-				return idx%512 != 0 || !c.TimeUp()
+				return !c.TimeUpEvery(32)
 			}
 			scalars := []string{"null", "true", "false", "0", "-1.5", "1e2", "1e19", "12345678901234567890", "0.1", `""`, `"a"`, `"é"`, `"\""`, `"\u0000"`, "9007199254740993", "1.7976931348623157e308", "-0",
 				// fractions whose shortest form has 16 / 17 significant digits, and the smallest float
